@@ -196,6 +196,14 @@ fn pending_class(text: &str, visible: usize, bom_sniffing_loses_short_prefix: bo
     }
 }
 
+fn floor_boundary(s: &str, mut i: usize) -> usize {
+    i = i.min(s.len());
+    while !s.is_char_boundary(i) {
+        i -= 1;
+    }
+    i
+}
+
 /// Symptom of an iterator run without any Err item, relative to the fault-free items.
 fn silent_shape(items: &[Canon], reference: &[Canon]) -> &'static str {
     if items.len() <= reference.len() && items.iter().zip(reference).all(|(a, b)| a == b) {
@@ -229,7 +237,7 @@ struct FaultCase<'a> {
 
 impl FaultCase<'_> {
     fn json(&self) -> Value {
-        json!({"section": "reader-fault", "text": self.doc.text, "ends": self.doc.ends, "class": self.doc.class,
+        json!({"section": "reader-fault", "text": self.doc.text, "ends": self.doc.ends, "class": self.doc.class, "encoding": self.doc.enc_name(),
                "target": self.t.name, "entry": self.e.name(), "chunking": self.ch.to_json(), "fault": self.f.to_json()})
     }
 }
@@ -237,14 +245,22 @@ impl FaultCase<'_> {
 /// Judge one faulted execution against the fault-free reference.
 fn check_fault_case(run: &Run, l: &mut Local, c: &FaultCase, reference: &RRun) {
     run.eval();
-    let data = c.doc.text.as_bytes();
+    let data = c.doc.data();
     let max_items = 4 * (reference.items.len() + 4);
-    let bom = if c.doc.text.starts_with('\u{FEFF}') { ":bom" } else { "" };
+    let bom = if c.doc.wire.is_some() {
+        ":utf16"
+    } else if c.doc.text.starts_with('\u{FEFF}') {
+        ":bom"
+    } else {
+        ""
+    };
     let r = match run_reader(c.t, c.e, data, base_opts(None), c.ch, &c.f, max_items) {
         Ok(r) => r,
         Err(p) if p.contains(RUNAWAY_MSG) => {
             l.add("reader_runaway_after_fault", 1);
-            let class = runaway_class(&c.doc.text, &p);
+            let at: usize = p.split(" at byte ").nth(1).and_then(|r| r.split_whitespace().next()).and_then(|n| n.parse().ok()).unwrap_or(data.len());
+            let (vt, vi) = c.doc.visible(at);
+            let class = runaway_class(&vt[..floor_boundary(&vt, vi)], "");
             run.violation_capped(&format!("C10:reader:never-returns-after-fault:{class}"), c.json(), p);
             return;
         }
@@ -287,6 +303,13 @@ fn check_fault_case(run: &Run, l: &mut Local, c: &FaultCase, reference: &RRun) {
     ]));
     let delivered = r.stats.bytes_out;
     let any_err = r.items.iter().any(|i| matches!(i, Canon::Err(..)));
+    if c.doc.wire.is_some() && matches!(c.f, RFault::EofAfterBytes(_)) {
+        // A UTF-16 stream that ends inside a code unit / between surrogates: the statement speaks of
+        // UTF-8 text and of "a multi-byte character"; the transcoder substitutes U+FFFD. Observed only.
+        run.count("unspecified/utf16-eof-inside-code-unit-or-surrogate-pair", 1);
+        l.see("utf16_truncated_unit_outcomes", format!("{}:{}", c.e.name(), if any_err { "has-err" } else { "no-err" }));
+        return;
+    }
     for i in &r.items {
         if let Canon::Err(k, _) = i {
             l.see("error_kinds_after_fault", format!("{}:{k}", c.e.name()));
@@ -294,7 +317,8 @@ fn check_fault_case(run: &Run, l: &mut Local, c: &FaultCase, reference: &RRun) {
     }
     if !any_err {
         let visible = r.fired_at.unwrap_or(delivered);
-        let pc = prefix_class(&c.doc.text, visible);
+        let (vt, vi) = c.doc.visible(visible);
+        let pc = prefix_class(&vt, vi);
         if pc == "prefix-is-a-complete-stream" {
             l.add("swallowed_where_prefix_is_complete", 1);
         }
@@ -305,7 +329,7 @@ fn check_fault_case(run: &Run, l: &mut Local, c: &FaultCase, reference: &RRun) {
             format!(
                 "C10:reader:iter:fault-swallowed:{}:{}",
                 silent_shape(&r.items, &reference.items),
-                pending_class(&c.doc.text, visible, true)
+                pending_class(&vt, if c.doc.wire.is_some() && visible < 3 { 0 } else { vi }, c.doc.wire.is_none())
             )
         } else {
             format!("C10:reader:{}:fault-swallowed:{}:{pc}{bom}", c.e.name(), c.f.label())
@@ -357,7 +381,7 @@ fn check_fault_case(run: &Run, l: &mut Local, c: &FaultCase, reference: &RRun) {
                 }
             }
             if sticky
-                && let Some(ends) = &c.doc.ends
+                && let Some(ends) = c.doc.wire_ends()
                 && ends.len() == reference.items.len()
                 && let Some(e) = ends.get(i)
             {
@@ -386,10 +410,10 @@ fn sweep_doc(
     positions: Option<&[usize]>,
     entries: &[REntry],
 ) {
-    let data = doc.text.as_bytes();
+    let data = doc.data();
     let n = data.len();
     // evidence: how many cut positions leave a prefix that is itself a complete stream
-    if positions.is_none() {
+    if positions.is_none() && doc.wire.is_none() {
         let mut complete = 0u64;
         for k in 0..n {
             if doc.text.is_char_boundary(k) && k > 0 && prefix_class(&doc.text, k) == "prefix-is-a-complete-stream" {
@@ -399,7 +423,21 @@ fn sweep_doc(
         l.add("fault_positions_whose_prefix_is_a_complete_stream", complete);
         l.add("fault_positions_total_bytes", n as u64 + 1);
     }
-    let inside: Vec<usize> = (1..n).filter(|k| data[*k] & 0xC0 == 0x80).collect();
+    let inside: Vec<usize> = match &doc.wire {
+        None => (1..n).filter(|k| data[*k] & 0xC0 == 0x80).collect(),
+        // UTF-16: inside a code unit (odd offsets) and between the halves of a surrogate pair
+        Some(w) => {
+            let le = w.enc == "utf-16le";
+            (1..n)
+                .filter(|k| {
+                    k % 2 == 1 || (*k >= 4 && {
+                        let u = if le { u16::from_le_bytes([data[k - 2], data[k - 1]]) } else { u16::from_be_bytes([data[k - 2], data[k - 1]]) };
+                        (0xD800..0xDC00).contains(&u)
+                    })
+                })
+                .collect()
+        }
+    };
     for ch in chunkings {
         for &e in entries {
             run.eval();
@@ -444,7 +482,7 @@ fn sweep_doc(
                         let k = k.min(n);
                         faults.push(RFault::ErrAfterBytes(k));
                         faults.push(RFault::ErrOnceAfterBytes(k));
-                        if data.get(k).is_some_and(|b| b & 0xC0 == 0x80) {
+                        if inside.binary_search(&k).is_ok() {
                             faults.push(RFault::EofAfterBytes(k));
                         }
                     }
@@ -541,14 +579,13 @@ fn check_cap_large(run: &Run, l: &mut Local, c: &CapCase, text: &str, nocap: &RR
 }
 
 /// `len <= c` ⇒ identical to no cap; `len > c` ⇒ Err (when the uncapped run consumes the whole input).
-fn check_cap_small(run: &Run, l: &mut Local, doc: &Doc, t: &Target) {
-    if doc.text.starts_with('\u{FEFF}') {
-        // the cap counts decoded bytes; with a BOM "length" is ambiguous by 3 bytes
-        run.count("unspecified/cap-on-bom-prefixed-input", 1);
-        return;
-    }
-    let data = doc.text.as_bytes();
+fn check_cap_small(run: &Run, l: &mut Local, doc: &Doc, t: &Target, every_cap_up_to: usize, only: Option<usize>) {
+    let data = doc.data();
     let n = data.len();
+    // The cap counts decoded UTF-8 bytes. With a byte-order mark or a UTF-16 stream the raw and the
+    // decoded length differ; "no larger than the cap" is only unambiguous outside [lo, hi).
+    let decoded = doc.text.trim_start_matches('\u{FEFF}').len();
+    let (lo, hi) = (n.min(decoded), n.max(decoded));
     let ch = Chunking::Every(1);
     for e in ALL_RENTRIES {
         run.eval();
@@ -557,18 +594,34 @@ fn check_cap_small(run: &Run, l: &mut Local, doc: &Doc, t: &Target) {
         };
         // with 1-byte reads the 8 KiB BufReader cannot run ahead: eof_seen <=> the parser asked beyond the last byte
         let consumed_all = nocap.stats.eof_seen && nocap.stats.bytes_out == n;
-        let mut caps = vec![n, n + 1, n + 4096];
-        if n > 0 {
-            caps.extend([n - 1, 1.min(n - 1), 0]);
-        }
+        let mut caps: Vec<usize> = if n <= every_cap_up_to {
+            (0..=hi + 1).collect()
+        } else {
+            let mut v = vec![hi, hi + 1, 0, 1];
+            if lo > 0 {
+                v.push(lo - 1);
+            }
+            v
+        };
+        caps.push(hi + 4096);
+        caps.sort_unstable();
         caps.dedup();
+        if let Some(c) = only {
+            caps = vec![c];
+        }
+        if n <= every_cap_up_to {
+            l.add("cap_small_documents_with_every_cap_value", 1);
+        }
         for c in caps {
             run.eval();
-            let case = || json!({"section": "cap-small", "text": doc.text, "cap": c, "target": t.name, "entry": e.name(), "chunking": ch.to_json()});
+            let case = || {
+                json!({"section": "cap-small", "text": doc.text, "encoding": doc.enc_name(), "cap": c, "target": t.name, "entry": e.name(), "chunking": ch.to_json()})
+            };
             let r = match run_reader(t, e, data, base_opts(Some(Some(c))), &ch, &RFault::None, 10_000) {
                 Ok(r) => r,
                 Err(p) if p.contains(RUNAWAY_MSG) => {
-                    run.violation_capped(&format!("C10:cap:never-returns-after-cap:{}", runaway_class(&doc.text[..c.min(n)], &p)), case(), p);
+                    let (vt, vi) = doc.visible(c.min(n));
+                    run.violation_capped(&format!("C10:cap:never-returns-after-cap:{}", runaway_class(&vt[..floor_boundary(&vt, vi)], "")), case(), p);
                     continue;
                 }
                 Err(p) => {
@@ -576,29 +629,36 @@ fn check_cap_small(run: &Run, l: &mut Local, doc: &Doc, t: &Target) {
                     continue;
                 }
             };
-            if n <= c {
+            if c >= hi {
                 l.add("cap_small_within_cap_cases", 1);
                 if r.items != nocap.items {
                     run.violation_capped(
-                        &format!("C10:cap:input-within-cap-differs-from-uncapped:cap-minus-len={}", c - n),
+                        &format!("C10:cap:input-within-cap-differs-from-uncapped:cap-minus-len={}", c - hi),
                         case(),
-                        format!("len {n} <= cap {c}: uncapped {} | capped {}", show_items(&nocap.items), show_items(&r.items)),
+                        format!("raw length {n}, decoded length {decoded} <= cap {c}: uncapped {} | capped {}", show_items(&nocap.items), show_items(&r.items)),
                     );
                 } else if n >= 2 {
                     run.nontrivial(fnv_parts(&[b"cap-small", data, &c.to_le_bytes(), e.name().as_bytes()]));
                 }
+            } else if c >= lo {
+                run.count("unspecified/cap-between-raw-and-decoded-length (BOM / UTF-16)", 1);
             } else if consumed_all {
                 l.add("cap_small_over_cap_cases", 1);
+                if decoded > 0 && !doc.text.is_char_boundary((doc.text.len() - decoded + c).min(doc.text.len())) {
+                    l.add("cap_small_cap_falls_inside_a_multibyte_character", 1);
+                }
                 if !r.items.iter().any(|i| matches!(i, Canon::Err(..))) {
                     let sig = if e == REntry::ReadIter {
-                        format!("C10:cap:iter:exceeded-but-no-error:{}:{}", silent_shape(&r.items, &nocap.items), pending_class(&doc.text, c, false))
+                        let (vt, _) = doc.visible(n);
+                        let body = vt.trim_start_matches('\u{FEFF}');
+                        format!("C10:cap:iter:exceeded-but-no-error:{}:{}", silent_shape(&r.items, &nocap.items), pending_class(body, c, false))
                     } else {
                         format!("C10:cap:exceeded-but-no-error:{}:small-input", e.name())
                     };
                     run.violation_capped(
                         &sig,
                         case(),
-                        format!("len {n} > cap {c} and the uncapped run consumes the whole input, result: {}", show_items(&r.items)),
+                        format!("raw length {n}, decoded length {decoded} > cap {c} and the uncapped run consumes the whole input, result: {}", show_items(&r.items)),
                     );
                 } else {
                     run.nontrivial(fnv_parts(&[b"cap-small", data, &c.to_le_bytes(), e.name().as_bytes()]));
@@ -697,23 +757,44 @@ impl WPlan {
     }
 }
 
+/// Number of serializer option vectors: all 2^7 booleans x indent_step {2, 1, 4} x {default folding, narrow folding}.
+const N_SER_OPTS: usize = 128 * 3 * 2;
+
+fn anchor_name(i: usize) -> String {
+    format!("id{i}")
+}
+
 fn ser_opts(v: usize) -> serde_saphyr::SerializerOptions {
     let mut o = serde_saphyr::SerializerOptions::default();
+    let bits = v % 128;
     #[allow(deprecated)]
-    match v {
-        1 => {
-            o.indent_step = 4;
-            o.quote_all = true;
-            o.compact_list_indent = true;
+    {
+        if bits & 1 != 0 {
+            o.empty_as_braces = !o.empty_as_braces;
         }
-        2 => {
-            o.prefer_block_scalars = false;
-            o.empty_as_braces = false;
-            o.tagged_enums = true;
+        if bits & 2 != 0 {
+            o.compact_list_indent = !o.compact_list_indent;
+        }
+        if bits & 4 != 0 {
+            o.tagged_enums = !o.tagged_enums;
+        }
+        if bits & 8 != 0 {
+            o.prefer_block_scalars = !o.prefer_block_scalars;
+        }
+        if bits & 16 != 0 {
+            o.quote_all = !o.quote_all;
+        }
+        if bits & 32 != 0 {
+            o.yaml_12 = !o.yaml_12;
+        }
+        if bits & 64 != 0 {
+            o.anchor_generator = Some(anchor_name);
+        }
+        o.indent_step = [2usize, 1, 4][(v / 128) % 3];
+        if (v / 384) % 2 == 1 {
             o.folded_wrap_chars = 20;
             o.min_fold_chars = 10;
         }
-        _ => {}
     }
     o
 }
@@ -832,7 +913,7 @@ fn sweep_value<T: serde::Serialize>(run: &Run, l: &mut Local, value: &T, ident: 
                 _ => w.calls.saturating_sub(1),
             };
             if calls_before >= 2 {
-                run.nontrivial(fnv_parts(&[b"writer", &f_out, &[optv as u8, short as u8], plan.to_json().to_string().as_bytes()]));
+                run.nontrivial(fnv_parts(&[b"writer", &f_out, &(optv as u32).to_le_bytes(), &[short as u8], plan.to_json().to_string().as_bytes()]));
             }
             match &w.result {
                 Ok(()) => {
@@ -876,7 +957,7 @@ fn sweep_value<T: serde::Serialize>(run: &Run, l: &mut Local, value: &T, ident: 
 fn writer_vals(seed: u64, tier: Tier) -> Vec<Val> {
     let mut out = Vec::new();
     // every small document shape (the C13 quick set: all base trees with <= 4 nodes), as values
-    for n in 1..=tier.pick(3, 4) {
+    for n in 1..=4 {
         for t in treegen::base_trees(n, LEAVES_BASIC) {
             let text = ydoc::render_text(&t);
             if let Ok(v) = serde_saphyr::from_str::<Val>(&text) {
@@ -884,7 +965,7 @@ fn writer_vals(seed: u64, tier: Tier) -> Vec<Val> {
             }
         }
     }
-    let n_random = tier.pick(150, 2500);
+    let n_random = tier.pick(1500, 12_000);
     for i in 0..n_random {
         let mut rng = Rng::stream(seed, i as u64 ^ 0x77a1);
         out.push(docs::random_val(&mut rng, 3));
@@ -904,11 +985,17 @@ fn replay(run: &Run, case: &Value) {
                 text: case["text"].as_str().unwrap_or("").to_string(),
                 ends: case["ends"].as_array().map(|a| a.iter().filter_map(|x| x.as_u64()).map(|x| x as usize).collect()),
                 class: "replay",
+                wire: None,
+            };
+            let doc = match case["encoding"].as_str() {
+                Some("utf-16le") => doc.as_utf16(true),
+                Some("utf-16be") => doc.as_utf16(false),
+                _ => doc,
             };
             let e = REntry::from_name(case["entry"].as_str().unwrap_or(""));
             let ch = Chunking::from_json(&case["chunking"]);
             let f = RFault::from_json(&case["fault"]);
-            match run_reader(t, e, doc.text.as_bytes(), base_opts(None), &ch, &RFault::None, 10_000) {
+            match run_reader(t, e, doc.data(), base_opts(None), &ch, &RFault::None, 10_000) {
                 Ok(reference) => check_fault_case(run, &mut l, &FaultCase { doc: &doc, t, e, ch: &ch, f }, &reference),
                 Err(p) => run.violation_capped("C10:reader:never-returns:fault-free", case.clone(), p),
             }
@@ -925,8 +1012,13 @@ fn replay(run: &Run, case: &Value) {
             }
         }
         "cap-small" => {
-            let doc = Doc { text: case["text"].as_str().unwrap_or("").to_string(), ends: None, class: "replay" };
-            check_cap_small(run, &mut l, &doc, t);
+            let doc = Doc { text: case["text"].as_str().unwrap_or("").to_string(), ends: None, class: "replay", wire: None };
+            let doc = match case["encoding"].as_str() {
+                Some("utf-16le") => doc.as_utf16(true),
+                Some("utf-16be") => doc.as_utf16(false),
+                _ => doc,
+            };
+            check_cap_small(run, &mut l, &doc, t, 0, case["cap"].as_u64().map(|c| c as usize));
         }
         "writer" => {
             let ident = &case["value"];
@@ -936,7 +1028,7 @@ fn replay(run: &Run, case: &Value) {
             let idx = ident["index"].as_u64().unwrap_or(0) as usize;
             match ident["kind"].as_str() {
                 Some("record") => {
-                    if let Some(r) = docs::records().get(idx) {
+                    if let Some(r) = docs::any_records().get(idx) {
                         sweep_value(run, &mut l, r, ident, optv, &[short], Some((&plan, short)));
                     }
                 }
@@ -970,7 +1062,7 @@ fn main() {
     let typed: Vec<&'static Target> = ["Val", "MapStrVal", "VecString", "json", "Ignored"].iter().filter_map(|n| targets::by_name(n)).collect();
 
     // ================= 1. every fault position of every document <= 2 KiB
-    let n_docs = tier.pick(300usize, 5000usize);
+    let n_docs = tier.pick(1500usize, 12_000usize);
     par_range(if on(1) { n_docs } else { 0 }, |i| {
         let mut l = Local::default();
         let doc = docs::sweep_doc(run.seed, i);
@@ -994,13 +1086,29 @@ fn main() {
             1 => vec![Chunking::Whole, Chunking::Every(3)],
             _ => vec![Chunking::Every(1), Chunking::Every(7)],
         };
-        let step = if thorough { 1 } else { 3 };
-        sweep_doc(&run, &mut l, &doc, val_t, &chunkings, step, None, &ALL_RENTRIES);
+        sweep_doc(&run, &mut l, &doc, val_t, &chunkings, 1, None, &ALL_RENTRIES);
         if i % 2 == 0 {
             let t = typed[1 + (i / 2) % (typed.len() - 1)];
-            sweep_doc(&run, &mut l, &doc, t, &chunkings[..1], step, None, &ALL_RENTRIES);
+            sweep_doc(&run, &mut l, &doc, t, &chunkings[..1], 1, None, &ALL_RENTRIES);
         }
-        check_cap_small(&run, &mut l, &doc, val_t);
+        let every_cap = tier.pick(160, 400);
+        check_cap_small(&run, &mut l, &doc, val_t, every_cap, None);
+        // the same document behind a UTF-8 byte-order mark: faults and caps inside / right after the mark
+        if i % 4 == 1 && !doc.text.starts_with('\u{FEFF}') {
+            let mut b = doc.clone();
+            b.text = format!("{}{}", '\u{FEFF}', doc.text);
+            b.ends = doc.ends.as_ref().map(|v| v.iter().map(|e| e + 3).collect());
+            l.add("docs/utf8-bom-variant", 1);
+            sweep_doc(&run, &mut l, &b, val_t, &chunkings[..1], 1, None, &ALL_RENTRIES);
+            check_cap_small(&run, &mut l, &b, val_t, every_cap, None);
+        }
+        // the same document sent as UTF-16 (LE / BE) with BOM
+        if i % 4 == 3 && !doc.text.contains('\0') {
+            let w = doc.as_utf16(i % 8 == 3);
+            l.add(if i % 8 == 3 { "docs/utf16le-variant" } else { "docs/utf16be-variant" }, 1);
+            sweep_doc(&run, &mut l, &w, val_t, &chunkings[..1], 1, None, &ALL_RENTRIES);
+            check_cap_small(&run, &mut l, &w, val_t, every_cap / 2, None);
+        }
         if i % 37 == 0 {
             run.sample(|| json!({"section": "reader-fault", "class": doc.class, "text": doc.text, "ends": doc.ends}));
         }
@@ -1109,34 +1217,42 @@ fn main() {
 
     // ================= 4. writer faults
     let vals = writer_vals(run.seed, tier);
-    let recs = docs::records();
-    run.count("writer_values", (vals.len() + recs.len()) as u64);
-    let n_w = if on(4) { vals.len() + recs.len() } else { 0 };
-    par_range(n_w, |i| {
+    let n_recs = docs::any_records().len();
+    run.count("writer_values", (vals.len() + n_recs) as u64);
+    run.count("writer_option_vectors", N_SER_OPTS as u64);
+    // (a) Val trees: option vector 0 (to_io_writer) and seeded others
+    let per_val = tier.pick(2usize, 4usize);
+    par_range(if on(4) { vals.len() } else { 0 }, |i| {
         let mut l = Local::default();
         let shorts: &[usize] = if i % 4 == 0 { &[0, 1, 3] } else { &[0] };
-        if i < vals.len() {
-            let ident = json!({"kind": "val", "index": i, "seed": run.seed as i64, "tier": tier.name(), "value": vals[i].to_json()});
-            let optv = i % 3;
+        let ident = json!({"kind": "val", "index": i, "seed": run.seed as i64, "tier": tier.name(), "value": vals[i].to_json()});
+        let mut rng = Rng::stream(run.seed, i as u64 ^ 0x0b75);
+        for j in 0..per_val {
+            let optv = if j == 0 && i % 3 == 0 { 0 } else { rng.below(N_SER_OPTS) };
             sweep_value(&run, &mut l, &vals[i], &ident, optv, shorts, None);
-            if i % 211 == 0 {
-                run.sample(|| json!({"section": "writer", "value": vals[i].to_json(), "opts": optv}));
-            }
-        } else {
-            let j = i - vals.len();
-            let ident = json!({"kind": "record", "index": j});
-            for optv in 0..3 {
-                sweep_value(&run, &mut l, &recs[j], &ident, optv, &[0, 1, 7], None);
-            }
         }
+        if i % 211 == 0 {
+            run.sample(|| json!({"section": "writer", "value": vals[i].to_json()}));
+        }
+        l.flush(&run);
+    });
+    // (b) derived records (plain, shared anchors, layout wrappers / block scalars) x EVERY option vector
+    par_range(if on(4) { n_recs * N_SER_OPTS } else { 0 }, |ix| {
+        let mut l = Local::default();
+        let recs = docs::any_records(); // Rc inside: built per work item
+        let j = ix / N_SER_OPTS;
+        let optv = ix % N_SER_OPTS;
+        let ident = json!({"kind": "record", "index": j});
+        let shorts: &[usize] = if thorough || optv % 8 == 0 { &[0, 1, 7] } else { &[0] };
+        sweep_value(&run, &mut l, &recs[j], &ident, optv, shorts, None);
         l.flush(&run);
     });
 
     let scope = format!(
-        "reader: for each of the {n_docs} generated documents (<= 2 KiB; families: block documents and streams whose truncated prefixes are complete documents, generated trees, flow, special shapes) and of every scalar-root document/stream of the fixed list x typed targets {{u64, i64, f64, bool, char, u8, i128, f32, Option<u64>, String, Val}} incl. serde_saphyr::read x chunkings x {{from_reader, with_deserializer_from_reader, read iterator}}: hard error after byte k for EVERY k in 0..=len, hard error on read call k for EVERY k below the fault-free call count, EOF at EVERY byte offset inside a multi-byte character{}; writer: for every value of the set ({} values: all base trees with <= {} nodes as Val, seeded random Val trees, 3 derived records) x option vectors: failing write call k for EVERY k in 0..=fault-free call count and failure after n accepted bytes for EVERY n in 0..=len (sticky and fail-once; short writes 0/1/3/7)",
+        "reader: for each of the {n_docs} generated documents (<= 2 KiB; families: block documents and streams whose truncated prefixes are complete documents, generated trees, flow, special shapes) and of every scalar-root document/stream of the fixed list x typed targets {{u64, i64, f64, bool, char, u8, i128, f32, Option<u64>, String, Val}} incl. serde_saphyr::read x chunkings x {{from_reader, with_deserializer_from_reader, read iterator}}: hard error after byte k for EVERY k in 0..=len, hard error on read call k for EVERY k below the fault-free call count, EOF at EVERY byte offset inside a multi-byte character{}; writer: for every value of the set ({} values: all base trees with <= {} nodes as Val and seeded random Val trees x seeded option vectors; 5 derived records (plain, RcAnchor/ArcAnchor shared nodes, LitString/FoldString/Commented/FlowSeq/FlowMap/SpaceAfter wrappers) x ALL 768 serializer option vectors = 2^7 booleans x indent_step {{2,1,4}} x {{default, narrow}} folding): failing write call k for EVERY k in 0..=fault-free call count and failure after n accepted bytes for EVERY n in 0..=len (sticky and fail-once; short writes 0/1/3/7)",
         if thorough { ", and the fail-once variants at every k" } else { " (fail-once variants at every 3rd k)" },
-        vals.len() + recs.len(),
-        tier.pick(3, 4)
+        vals.len() + n_recs,
+        4
     );
     let fin = Finish::new(
         "reader: a case is non-trivial when the instrumented reader reports that the fault fired, distinct by hash(document, target, entry point, chunking, fault); writer: the writer was called >= 2 times before failing, distinct by hash(fault-free output, options, short-write size, fault); cap: every case (the cap is below the input length or exactly around it)",
